@@ -234,6 +234,15 @@ def _dur_op(a, pre):
         return x * (a["num"] / a["den"])
     if o == "rmul_float":
         return (a["num"] / a["den"]) * x
+    if o in ("mul_floatx", "rmul_floatx"):
+        # any float factor, given by its repr; its exact value +-fa / 2^fe goes to the specification
+        f = float(a["f"])
+        num, den = abs(f).as_integer_ratio()
+        a["fneg"] = f < 0
+        a["fa"] = proj.cps(str(num))
+        a["fe"] = den.bit_length() - 1
+        assert den == 1 << a["fe"]
+        return x * f if o == "mul_floatx" else f * x
     if o == "truediv_int":
         return x / a["n"]
     if o == "truediv_float":
